@@ -32,6 +32,20 @@ type G struct {
 	OwnPfx  bool     `json:"own_prefix"`       // local bases are spelled with the module's own prefix
 	Undef   int      `json:"undefined"`        // identity that additionally names an undefined base (-1: none)
 	SubPfx  bool     `json:"submodule_prefix"` // the submodule imports b under a prefix of its own (z) that its module does not bind: prefixes are scoped per file
+	// SubSwap: as SubPfx, and the prefix under which module a knows b means, in the submodule, a
+	// third module c that declares identities with the names of b's; the submodule derives one
+	// more identity ("extra") from c's namesake of b's first identity through that prefix
+	SubSwap bool `json:"submodule_swaps_prefix,omitempty"`
+}
+
+// firstInB returns the name of the first identity placed in module b ("" if none).
+func (g G) firstInB() string {
+	for i := 0; i < g.N; i++ {
+		if g.Place[i] == 1 {
+			return g.Names[i]
+		}
+	}
+	return ""
 }
 
 func owner(p int) int {
@@ -62,7 +76,7 @@ func (g G) files() []dump.File {
 				fmt.Fprintf(sb, " base %s:%s;", own[oi], g.Names[j])
 			case oi == oj:
 				fmt.Fprintf(sb, " base %s;", g.Names[j])
-			case g.Place[i] == 2 && g.SubPfx:
+			case g.Place[i] == 2 && (g.SubPfx || g.SubSwap):
 				fmt.Fprintf(sb, " base z:%s;", g.Names[j])
 			default:
 				fmt.Fprintf(sb, " base %s:%s;", imp[oi], g.Names[j])
@@ -73,6 +87,23 @@ func (g G) files() []dump.File {
 		}
 		sb.WriteString(" }")
 		fmt.Fprintf(sb, " leaf ref%d { type identityref { base %s; } }", i, g.Names[i])
+	}
+	if g.SubSwap {
+		var cb strings.Builder
+		seen := map[string]bool{}
+		for i := 0; i < g.N; i++ {
+			if g.Place[i] == 1 && !seen[g.Names[i]] {
+				seen[g.Names[i]] = true
+				fmt.Fprintf(&cb, " identity %s;", g.Names[i])
+			}
+		}
+		fmt.Fprintf(body[2], " identity extra { base %s:%s; } leaf refextra { type identityref { base extra; } }", imp[0], g.firstInB())
+		return []dump.File{
+			{Name: "a.yang", Text: fmt.Sprintf(`module a { namespace "urn:a"; prefix %s; import b { prefix %s; } include as;%s }`, own[0], imp[0], body[0])},
+			{Name: "b.yang", Text: fmt.Sprintf(`module b { namespace "urn:b"; prefix %s; import a { prefix %s; }%s }`, own[1], imp[1], body[1])},
+			{Name: "as.yang", Text: fmt.Sprintf(`submodule as { belongs-to a { prefix %s; } import b { prefix z; } import c { prefix %s; }%s }`, own[0], imp[0], body[2])},
+			{Name: "c.yang", Text: fmt.Sprintf(`module c { namespace "urn:c"; prefix c;%s }`, cb.String())},
+		}
 	}
 	return []dump.File{
 		{Name: "a.yang", Text: fmt.Sprintf(`module a { namespace "urn:a"; prefix %s; import b { prefix %s; } include as;%s }`, own[0], imp[0], body[0])},
@@ -123,6 +154,14 @@ func runOnce(g G, ord []int, x *explore.X) (f *fail, signature string) {
 		defer order.Install(nil)
 	}
 	files := g.files()
+	if len(files) == 4 && len(ord) == 3 {
+		// the third module goes first or last, depending on the permutation of the others
+		if ord[0] == 0 {
+			ord = append(append([]int{}, ord...), 3)
+		} else {
+			ord = append([]int{3}, ord...)
+		}
+	}
 	mustErr := g.cyclic() || g.Undef >= 0
 	pan, pt := core.Guard(func() {
 		ms := yang.NewModules()
@@ -216,6 +255,34 @@ func runOnce(g G, ord []int, x *explore.X) (f *fail, signature string) {
 			if g.Place[i] != 2 && !found {
 				f = &fail{"identity-not-listed-on-its-module-entry", key(i), "absent"}
 				return
+			}
+		}
+		if g.SubSwap {
+			// module c: the namesake of b's first identity has exactly the submodule's extra
+			// identity below it, the others nothing
+			extra := ids["2:extra"]
+			if extra == nil || len(extra.Values) != 0 {
+				f = &fail{"values-differ-from-reverse-reachability", "2:extra values []", fmt.Sprint(extra != nil)}
+				return
+			}
+			for _, id := range ms.Modules["c"].Identity {
+				var gotL []string
+				for _, v := range id.Values {
+					l := label[v]
+					if v == extra {
+						l = "2:extra"
+					}
+					gotL = append(gotL, l)
+				}
+				want := "[]"
+				if id.Name == g.firstInB() {
+					want = "[2:extra]"
+				}
+				if fmt.Sprint(gotL) != want {
+					f = &fail{"values-differ-from-reverse-reachability", "3:" + id.Name + " values " + want, fmt.Sprint(gotL)}
+					return
+				}
+				sig = append(sig, "3:"+id.Name+"="+strings.Join(gotL, ","))
 			}
 		}
 		signature = strings.Join(sig, " | ")
@@ -313,6 +380,9 @@ func enum(tier string, f func(G)) {
 									gz := g
 									gz.SubPfx = true
 									f(gz)
+									gs := g
+									gs.SubSwap = true
+									f(gs)
 									break
 								}
 							}
@@ -343,7 +413,7 @@ func run(c *core.Ctx) {
 	}
 	var shard int
 	fmt.Sscanf(c.Shard, "g/%d", &shard)
-	c.Res.Bound = fmt.Sprintf("all base-edge subsets over N <= %d identities (N = 4: at most 5 edges) x placements in {a, b, submodule of a} x names distinct / two equal in different modules x prefix regime x spelling of local bases, plus an undefined base on sparse graphs; all 6 load orders; on graphs with equal names or a shared prefix also every single deviation of map iteration order", maxN(c.Tier))
+	c.Res.Bound = fmt.Sprintf("all base-edge subsets over N <= %d identities (N = 4: at most 5 edges) x placements in {a, b, submodule of a} x names distinct / two equal in different modules x prefix regime (module names as prefixes; one shared own prefix; a file-local prefix in the submodule; the submodule binding its module's prefix for b to a third module with namesake identities) x spelling of local bases, plus an undefined base on sparse graphs; all 6 load orders; on graphs with equal names or a shared prefix also every single deviation of map iteration order", maxN(c.Tier))
 	perms := explore.Perms(3)
 	i := 0
 	enum(c.Tier, func(g G) {
